@@ -9,7 +9,7 @@ Dict field.
 """
 from typing import Any, Dict, List, Optional, Sequence, Tuple, TypeVar, Union
 
-from ..core import AnyField, Config, Field, ValidationError
+from ..core import AnyField, Config, Field, ValidationError, copy_basic_value
 
 _KeyT = TypeVar("_KeyT")
 _ValueT = TypeVar("_ValueT")
@@ -200,8 +200,11 @@ class DictField(Field):
 
     def __setdefault__(self, cfg: Config) -> None:
         default = self.default
-        if isinstance(default, dict) and self._use_proxy:
-            default = DictProxy(cfg, self, default)
+        if isinstance(default, dict):
+            # nested lists and dicts belong to the configuration as well
+            default = copy_basic_value(default)
+            if self._use_proxy:
+                default = DictProxy(cfg, self, default)
         elif default is not None:
             default = dict(default)
         cfg._set_default_value(self._key, default)
